@@ -169,6 +169,15 @@ def run(ctx):
             ok = must <= got and not (mustnot & got)
             ctx.ob('R10.2', 'apply_timeout row (runtime %s, duration %s)' % key, ok, ctx.where(at), 'events %s; required %s; forbidden %s' % (sorted(got), sorted(must), sorted(mustnot)),
                    construct='apply_timeout:row:%s:%s' % key, sites=sorted(got))
+        # the awaited future's own error is passed on (`map_err(Into::into)`), never discarded: a closed pool must surface as
+        # Closed, a failing create as Backend, not as a timeout
+        oks = [(blk.term.line, sorted(blk.term.callee_names())[0]) for blk in at.blocks if blk.term.kind == 'call' and not blk.cleanup and
+               (blk.term.callee_names() & {'std::result::Result::ok', 'std::result::Result::unwrap_or', 'std::result::Result::unwrap_or_default', 'std::result::Result::unwrap_or_else'}
+                or any(a.kind == 'const' and a.const.get('fn') and strip_generics(a.const['fn']) in ('std::result::Result::ok',) for a in blk.term.args))]
+        intos = [blk for blk in at.blocks if blk.term.kind == 'call' and not blk.cleanup and 'std::result::Result::map_err' in blk.term.callee_names() and
+                 any(a.kind == 'const' and a.const.get('fn') and strip_generics(a.const['fn']).endswith('Into::into') for a in blk.term.args)]
+        ctx.ob('R10.2', 'the error of the awaited future is propagated, not swallowed by the timeout wrapper', not oks and len(intos) >= 2, ctx.where(at),
+               'error-discarding calls %s; map_err(Into::into) sites %d (one per awaiting row expected)' % (oks, len(intos)), construct='apply_timeout:inner-error')
         # Timeout carries the timeout_type argument
         tts = [aan.resolve_operand(s.rv.ops[0]) for blk in at.blocks for s in blk.stmts if s.kind == 'assign' and s.rv.kind == 'agg' and s.rv.j.get('adt') == POOLERR and s.rv.j['variant'] == 'Timeout']
         ctx.ob('R10.2', 'Timeout carries the type passed by the caller', tts == ['timeout_type'], ctx.where(at), str(tts), construct='apply_timeout:timeout-type')
@@ -247,6 +256,15 @@ def run(ctx):
             ctx.ob('R10.6', 'NoRuntimeSpecified from apply_timeout reaches the caller', ok, ctx.where(b, pl.term.line),
                    'the result of apply_timeout is collapsed by %s: a per-call timeout without runtime silently rejects objects instead of reporting NoRuntimeSpecified' % [n_ for _, nm in collapsed for n_ in nm]
                    if not ok else ('propagated with ?' if propagated else 'matched'), construct='apply_timeout-result-collapsed:' + role, sites=[ctx.where(b, pl.term.line)])
+
+    # ---- R10.9 a recycle timeout (or any recycle failure other than the usage error) counts as a rejected object ----------
+    recs = [prog.bodies[p_] for p_ in r.GETTER if manager_calls(prog.bodies[p_], MANAGER_RECYCLE)]
+    for rec in recs:
+        ran = prog.an(rec)
+        made = sorted({s.rv.j['variant'] for blk in rec.blocks if not blk.cleanup for s in blk.stmts if s.kind == 'assign' and s.rv.kind == 'agg' and s.rv.j.get('adt') == POOLERR})
+        resid = [bb for bb, cls, det in ran.ret_assignments() if cls == 'residual']
+        ctx.ob('R10.9', 'the recycler returns no error except NoRuntimeSpecified (a recycle timeout rejects the object and get() moves on)', set(made) <= {'NoRuntimeSpecified'} and not resid,
+               ctx.where(rec), 'recycler constructs %s, `?` propagations %d' % (made, len(resid)), construct='recycler-error-surface', sites=made)
 
     # ---- R10.5 build() ----------------------------------------------------------------------------------------------------
     bd = prog.body('deadpool::managed::builder::PoolBuilder::build')
